@@ -451,10 +451,19 @@ func main() {
 		if tier == "thorough" {
 			reps = "200"
 		}
-		ctx, cancel := context.WithTimeout(context.Background(), 10*time.Minute)
+		// the pass takes seconds on a tree where the property holds; code that blocks or spins in it is stopped here
+		// (the limit is recorded, never turned into a verdict: the exhaustive pass decides)
+		limit := 3 * time.Minute
+		if tier == "thorough" {
+			limit = 10 * time.Minute
+		}
+		ctx, cancel := context.WithTimeout(context.Background(), limit)
 		rc := exec.CommandContext(ctx, rbin, id, reps)
 		rc.Env = append(os.Environ(), "GORACE=halt_on_error=0")
 		out, rerr := rc.CombinedOutput()
+		if ctx.Err() != nil {
+			racePass["stopped_at_limit"] = limit.String()
+		}
 		cancel()
 		txt := string(out)
 		races := strings.Count(txt, "WARNING: DATA RACE")
